@@ -1,9 +1,9 @@
 /* Proof units for descriptor hygiene (C20): poll_set_new_evt() [real poll/epoll.c + real poll/cmn_linux.c] and src_priv_dtor() [real src.c]. */
 #include "vmodel.h"
-#ifdef V_POLL_UNIT
+#if defined(V_POLL_UNIT) || defined(V_POLLCD_UNIT)
 #include "core/poll/epoll.c"        /* real */
 #include "core/poll/cmn_linux.c"    /* real */
-static epoll_priv_t g_ep; static poll_priv_t g_ppriv; static struct epoll_event *g_ev;
+static epoll_priv_t g_ep; static poll_priv_t g_ppriv; static struct epoll_event *g_ev; static struct epoll_event *g_pev;
 #else
 #include "core/src.c"               /* real */
 #endif
@@ -30,7 +30,7 @@ static void build_src(void) {
         if (vin_registered) { g_psrc->fd_src.fd = V_LIBFD_BASE + 7; g_open_fd = V_LIBFD_BASE + 7; } else g_psrc->fd_src.fd = -1;
     } else g_psrc->fd_src.fd = vin_userfd;
 }
-#ifdef V_POLL_UNIT
+#if defined(V_POLL_UNIT) && !defined(V_POLLCD_UNIT)
 void h_poll_set_new_evt(void) {
     build_src();
     g_ppriv.data = &g_ep; g_ep.fd = 3; g_oom_mask = vin_oom & 1;
@@ -41,6 +41,23 @@ void h_poll_set_new_evt(void) {
     int r = poll_set_new_evt(&g_ppriv, g_psrc, vin_flag ? RM : ADD);
     V_COVER("add-timer", !vin_flag && vin_type == M_SRC_TYPE_TMR && !vin_registered && r == 0); V_COVER("rm-timer", vin_flag && vin_type == M_SRC_TYPE_TMR && vin_registered);
     V_COVER("rm-userfd", vin_flag && vin_type == M_SRC_TYPE_FD && vin_registered); V_COVER("rm-unregistered", vin_flag && !vin_registered); V_COVER("add-oneshot", !vin_flag && (vin_sflags & M_SRC_ONESHOT) && r == 0);
+    V_CANARY();
+}
+#elif defined(V_POLLCD_UNIT)
+void h_poll_create(void) {
+    build_src();
+    g_oom_mask = 0; g_ppriv.data = NULL;
+    int r = poll_create(&g_ppriv);
+    V_COVER("create-ok", r == 0); V_COVER("create-no-descriptor-left", r == -1);
+    V_CANARY();
+}
+void h_poll_destroy(void) {
+    build_src();
+    V_ASSUME(vin_newfd >= V_LIBFD_BASE);
+    g_ppriv.data = &g_ep; g_ep.fd = vin_newfd; g_open_fd = vin_newfd;
+    if (vin_registered) { g_pev = malloc(4 * sizeof *g_pev); __CPROVER_assume(g_pev != NULL); g_ep.pevents = g_pev; } else { g_pev = NULL; g_ep.pevents = NULL; }
+    int r = poll_destroy(&g_ppriv);
+    V_COVER("destroy-after-a-loop", r == 0 && vin_registered); V_COVER("destroy-never-looped", r == 0 && !vin_registered);
     V_CANARY();
 }
 #elif defined(V_CTXSRC_UNIT)
